@@ -3,6 +3,7 @@ import TwistedProps.C49.Log
 import TwistedProps.C49.Quit
 import TwistedProps.C49.Quiesce
 import TwistedProps.C49.Backlog
+import TwistedProps.C49.Report
 /-!
 C49 — thread pools run every task exactly once within their worker limit.
 
@@ -10,7 +11,7 @@ Statement (fixed): for any interleaving of task submission, worker growth and sh
 quit, with tasks that succeed or raise, every task submitted before quit runs exactly once (unless no worker
 could ever be created), workers are only created while fewer than the limit exist, no worker runs two tasks
 at once, and after quit every worker is stopped once outstanding tasks finish while new submissions are
-refused.
+refused.  With the real thread pool, every callInThreadWithCallback reports its outcome exactly once.
 
 Model: `TwistedModel/Threads/Team.lean` (Team + memory workers + `limitedWorkerCreator` + ThreadPool).
 A history is a list of `Op`: the public calls, raw changes of the limit function, and the schedule steps
@@ -27,6 +28,17 @@ Proved here (all histories):
 * `coordinator_stops_only_when_drained`  the coordinator is quit only after `quit()`, with nothing busy/queued;
 * `quit_is_permanent`, `submission_after_quit_refused`, `call_after_stop_dropped`.
 
+* `conservation_for_every_key`           for every key (a set of tasks + the event calling one of them produces exactly once):
+                                         #events + #in flight = #accepted; instances: tasks/`run` (`task_conservation`),
+                                         callback calls with outcome ok/`onResult(ok, …)` (`outcome_report_conservation`),
+                                         exceptions reaching `Team`/`logException()` (`errKey`), failing calls without
+                                         callback/`log.err` (`logerrKey`);
+* `outcome_reported_at_most_once`, `wrong_outcome_never_reported`, `call_submitted_once_reported_once_or_owed`,
+  `called_means_reported`, `every_outcome_reported_exactly_once`, `every_effect_happened_exactly_once`,
+  `every_outcome_reported_exactly_once_unless_no_worker_possible`
+                                         every `callInThreadWithCallback` — `func` returns or raises, `onResult` returns, RAISES
+                                         or is `None` — has its outcome reported exactly once, with the right flag; a fault inside
+                                         the callback is logged once by `Team` and never causes a second report;
 * `task_conservation`                    for every task id: #calls + #in flight (backlog + worker queues + coordinator
                                          queue) = #accepted — no task is lost or duplicated; corollaries
                                          `task_runs_at_most_as_often_as_accepted` (never twice), `task_submitted_once_is_in_one_place`;
@@ -47,7 +59,9 @@ Scope notes (not gaps in the proofs, limits of what the statement can mean):
 * `start_after_stop_leaves_backlog`: after `quit()` the clause "the creator refuses" can fail (a `start()` after `stop()`
   raises the limit while its `grow` raises `AlreadyQuit`); after quit the theorems give: nothing lost, nothing twice,
   backlog ⇒ no live worker, all workers and the coordinator quit;
-* real threads (`LockWorker`/`ThreadWorker`, `stop()` joining) are outside the model (see ASSUMES in harness/corr/C49.py).
+* real threads (`LockWorker`/`ThreadWorker`, `stop()` joining) are outside the model (see ASSUMES in harness/corr/C49.py);
+* tasks / callbacks that call back into the pool while they run are not in the model (the harness runs them against the
+  oracle only).
 -/
 namespace TwistedProps.C49
 open Twisted.Threads Twisted.Threads.St
@@ -126,8 +140,8 @@ theorem submission_after_quit_refused (s : St) (t : Nat) (r : Bool) (hc : s.cras
   simp [step, hc, applyOp, St.teamDo, hq, St.emit]
 
 /-- After `ThreadPool.stop()`, `callInThreadWithCallback` is silently ignored. -/
-theorem call_after_stop_dropped (s : St) (t : Nat) (r : Bool) (hc : s.crashed = none) (hj : s.joined = true) :
-    (step s (.pCall t r)).coordQ = s.coordQ ∧ (step s (.pCall t r)).log = s.log ++ [.dropped t] := by
+theorem call_after_stop_dropped (s : St) (t : Nat) (r : Bool) (cb : Cb) (hc : s.crashed = none) (hj : s.joined = true) :
+    (step s (.pCall t r cb)).coordQ = s.coordQ ∧ (step s (.pCall t r cb)).log = s.log ++ [.dropped t] := by
   simp [step, hc, applyOp, St.poolCall, hj, St.emit]
 
 
@@ -139,15 +153,22 @@ theorem reachable_inv2 {s : St} (h : Reachable s) : Inv2 s := by
   · exact inv2_run (inv2_init l ch) ops
   · exact inv2_run (inv2_initPool mn mx ch) ops
 
+/-- Conservation for every *key* `κ` (a set of tasks + the log event that calling one of them produces exactly once;
+    `Count.lean`), for every history and schedule:
+    `#κ-events in the log + #κ-tasks still in flight = #κ-tasks accepted by Team.do`. -/
+theorem conservation_for_every_key {s : St} (h : Reachable s) (κ : Key) :
+    runsK κ s + inflightK κ s = acceptsK κ s := by
+  have hn : NC s := no_queue_item_raises h
+  obtain ⟨s0, ops, h0, rfl⟩ := h
+  refine cons_run ops hn ?_ κ
+  rcases h0 with ⟨l, ch, rfl⟩ | ⟨mn, mx, ch, rfl⟩ <;> exact cons_fresh _ rfl rfl rfl rfl
+
 /-- Conservation of tasks, for every history and schedule and every task id `x`:
     `#calls of x + #copies of x still in flight = #times Team.do accepted x`,
     where "in flight" = `Team._pending` + the worker queues + the `_coordinateThisTask` items of the coordinator queue.
     No task is lost and none is duplicated. -/
-theorem task_conservation {s : St} (h : Reachable s) (x : Nat) : runs x s + inflight x s = accepts x s := by
-  have hn : NC s := no_queue_item_raises h
-  obtain ⟨s0, ops, h0, rfl⟩ := h
-  refine cons_run ops hn ?_ x
-  rcases h0 with ⟨l, ch, rfl⟩ | ⟨mn, mx, ch, rfl⟩ <;> exact cons_fresh _ rfl rfl rfl rfl
+theorem task_conservation {s : St} (h : Reachable s) (x : Nat) : runs x s + inflight x s = accepts x s :=
+  conservation_for_every_key h (runKey x)
 
 /-- No task runs more often than it was accepted — in particular a task submitted once never runs twice. -/
 theorem task_runs_at_most_as_often_as_accepted {s : St} (h : Reachable s) (x : Nat) : runs x s ≤ accepts x s := by
@@ -159,14 +180,19 @@ theorem task_submitted_once_is_in_one_place {s : St} (h : Reachable s) (x : Nat)
     (runs x s = 1 ∧ inflight x s = 0) ∨ (runs x s = 0 ∧ inflight x s = 1) := by
   have := task_conservation h x; omega
 
+/-- At a quiescent state (no queue has work), for every key: `#κ-events + #κ-tasks in the backlog = #κ-tasks accepted`. -/
+theorem quiescent_done_or_backlogged {s : St} (h : Reachable s) (he : s.enabled = []) (κ : Key) :
+    runsK κ s + s.pending.countP κ.tp = acceptsK κ s := by
+  have hc := conservation_for_every_key h κ
+  obtain ⟨hq, hw⟩ := (enabled_nil_iff s).mp he
+  simp only [inflightK, wsumK_zero_of_empty κ s.workers hw, hq] at hc
+  simpa using hc
+
 /-- At a quiescent state (no queue has work) every accepted task has run exactly as often as it was accepted,
     except for the copies still in `Team._pending`. -/
 theorem quiescent_ran_or_backlogged {s : St} (h : Reachable s) (he : s.enabled = []) (x : Nat) :
-    runs x s + s.pending.countP (isT x) = accepts x s := by
-  have hc := task_conservation h x
-  obtain ⟨hq, hw⟩ := (enabled_nil_iff s).mp he
-  simp only [inflight, wsum_zero_of_empty x s.workers hw, hq] at hc
-  simpa using hc
+    runs x s + s.pending.countP (isT x) = accepts x s :=
+  quiescent_done_or_backlogged h he (runKey x)
 
 /-- Quiescence: if no queue has work, then either the backlog is empty, or there is no live worker at all (the idle
     set is empty, nothing is busy, every worker ever created has been quit) — a backlog never coexists with a
@@ -288,6 +314,113 @@ theorem every_task_runs_exactly_once_unless_no_worker_possible {s : St} (h : Rea
   · rw [hp] at this; simpa using this
   · omega
 
+/-- … and every `callInThreadWithCallback` outcome has been reported exactly as often as accepted (any key: also the
+    single `logException()` of a raising callback and the single `log.err` of a failing call without callback). -/
+theorem every_outcome_reported_exactly_once_unless_no_worker_possible {s : St} (h : ReachableViaPool s)
+    (he : s.enabled = []) (hq : s.quit = false) (hl : 0 < s.limit) (κ : Key) :
+    runsK κ s = acceptsK κ s := by
+  have := quiescent_done_or_backlogged h.reachable he κ
+  rcases quiescent_backlog_means_no_worker_possible h he hq with hp | ⟨hle, _⟩
+  · rw [hp] at this; simpa using this
+  · omega
+
+/-! ### Every `callInThreadWithCallback` reports its outcome exactly once
+
+`Op.pCall t raises cb` is `ThreadPool.callInThreadWithCallback(onResult, func)` where `func` returns/raises and
+`onResult` returns, RAISES, or is `None`.  A raising callback's exception leaves `inContext` and is caught by
+`Team`'s `doWork` (one `logException()`); it must not cause a second report. -/
+
+/-- `onResult(ok, …)` calls made for call `x` -/
+def reports (x : Nat) (ok : Bool) (s : St) : Nat := runsK (resKey x ok) s
+/-- accepted, not yet called copies of call `x` that carry a callback and whose `func` has outcome `ok` -/
+def owed (x : Nat) (ok : Bool) (s : St) : Nat := inflightK (resKey x ok) s
+/-- how often `callInThreadWithCallback` was accepted for `x` with a callback and a `func` of outcome `ok` -/
+def callsAccepted (x : Nat) (ok : Bool) (s : St) : Nat := acceptsK (resKey x ok) s
+
+/-- what `callsAccepted` counts: accepted tasks of the kinds `callInThreadWithCallback` submits for a present
+    callback (returning or raising) and a `func` whose outcome is `ok` -/
+theorem callsAccepted_counts (x t : Nat) (ok r : Bool) (cb : Cb) :
+    aK (resKey x ok) (.accept (t, callKind r cb)) = (t == x && (cb != Cb.absent) && (ok == !r)) :=
+  isCall_callKind x t ok r cb
+
+/-- Conservation of outcome reports, for every history and schedule, every call `x` and both flags:
+    `#onResult(ok, …) calls for x + #accepted copies of x (callback present, outcome ok) not yet called
+     = #such copies accepted`.
+    No outcome is lost, none is reported twice, none with the wrong flag — also when the callback itself raises. -/
+theorem outcome_report_conservation {s : St} (h : Reachable s) (x : Nat) (ok : Bool) :
+    reports x ok s + owed x ok s = callsAccepted x ok s :=
+  conservation_for_every_key h (resKey x ok)
+
+/-- An outcome is never reported more often than the call was accepted with that outcome: a call submitted once is
+    never reported twice — neither twice with the same flag, nor (next theorem) once as success and once as failure. -/
+theorem outcome_reported_at_most_once {s : St} (h : Reachable s) (x : Nat) (ok : Bool) :
+    reports x ok s ≤ callsAccepted x ok s := by
+  have := outcome_report_conservation h x ok; omega
+
+/-- An outcome that no accepted call has is never reported: if `x` was never accepted with a callback and a `func` of
+    outcome `ok` (e.g. `func` always succeeds and `ok = false`; or `onResult is None`), there is no `onResult(ok, …)`
+    call for `x` — whatever the callbacks do. -/
+theorem wrong_outcome_never_reported {s : St} (h : Reachable s) (x : Nat) (ok : Bool)
+    (h0 : callsAccepted x ok s = 0) : reports x ok s = 0 := by
+  have := outcome_report_conservation h x ok; omega
+
+/-- A call submitted once has, at every moment, either been reported exactly once (with its flag) or not been called
+    yet. -/
+theorem call_submitted_once_reported_once_or_owed {s : St} (h : Reachable s) (x : Nat) (ok : Bool)
+    (ha : callsAccepted x ok s = 1) :
+    (reports x ok s = 1 ∧ owed x ok s = 0) ∨ (reports x ok s = 0 ∧ owed x ok s = 1) := by
+  have := outcome_report_conservation h x ok; omega
+
+/-- The report is made by the worker item that calls the task: as soon as call `x` has been called as often as it was
+    accepted (nothing of `x` in flight), every outcome of `x` has been reported exactly as often as accepted. -/
+theorem called_means_reported {s : St} (h : Reachable s) (x : Nat) (ok : Bool) (h0 : inflight x s = 0) :
+    reports x ok s = callsAccepted x ok s := by
+  have hc := outcome_report_conservation h x ok
+  have hle : owed x ok s ≤ inflight x s := by
+    have hp : ∀ t : Task, (resKey x ok).tp t = true → (runKey x).tp t = true := by
+      intro t ht
+      simp only [resKey, isCall, Bool.and_eq_true] at ht
+      exact ht.1
+    have hc' : ∀ c : CItem, cK (resKey x ok) c = true → cK (runKey x) c = true := by
+      intro c; cases c <;> simp only [cK] <;> first | exact hp _ | exact id
+    have hw : ∀ ws : List Worker, wsumK (resKey x ok) ws ≤ wsumK (runKey x) ws := by
+      intro ws
+      induction ws with
+      | nil => simp [wsumK]
+      | cons a l ih =>
+        have := List.countP_mono_left (l := a.queue) (p := (resKey x ok).tp) (q := (runKey x).tp) (fun t _ => hp t)
+        simp only [wsumK, List.map_cons, List.sum_cons] at ih ⊢
+        omega
+    have h1 := List.countP_mono_left (l := s.pending) (p := (resKey x ok).tp) (q := (runKey x).tp) (fun t _ => hp t)
+    have h2 := List.countP_mono_left (l := s.coordQ) (p := cK (resKey x ok)) (q := cK (runKey x)) (fun c _ => hc' c)
+    have h3 := hw s.workers
+    simp only [owed, inflight, inflightK]
+    omega
+  omega
+
+/-- At a quiescent state in which some worker is still alive, every outcome has been reported exactly as often as a
+    call with that outcome was accepted (exactly once for calls submitted once). -/
+theorem every_outcome_reported_exactly_once {s : St} (h : Reachable s) (he : s.enabled = [])
+    (hlive : ∃ (w : Nat) (wk : Worker), s.workers[w]? = some wk ∧ wk.quit = false) (x : Nat) (ok : Bool) :
+    reports x ok s = callsAccepted x ok s := by
+  have := quiescent_done_or_backlogged h he (resKey x ok)
+  rcases quiescent_backlog_means_no_live_worker h he with hp | ⟨_, _, hall⟩
+  · rw [hp] at this; simpa [reports, callsAccepted] using this
+  · obtain ⟨w, wk, hw, hq⟩ := hlive
+    rw [hall w wk hw] at hq; cases hq
+
+/-- The same for any key — in particular `errKey x` (an exception that reaches `Team` is logged exactly once: a raising
+    `Team.do` task, or a raising callback, on either outcome) and `logerrKey x` (a failing call without callback is
+    `log.err`ed exactly once). -/
+theorem every_effect_happened_exactly_once {s : St} (h : Reachable s) (he : s.enabled = [])
+    (hlive : ∃ (w : Nat) (wk : Worker), s.workers[w]? = some wk ∧ wk.quit = false) (κ : Key) :
+    runsK κ s = acceptsK κ s := by
+  have := quiescent_done_or_backlogged h he κ
+  rcases quiescent_backlog_means_no_live_worker h he with hp | ⟨_, _, hall⟩
+  · rw [hp] at this; simpa using this
+  · obtain ⟨w, wk, hw, hq⟩ := hlive
+    rw [hall w wk hw] at hq; cases hq
+
 /-! ### Non-vacuity and witnesses -/
 
 /-- a history that creates two workers, runs three tasks (one raising), shrinks and quits -/
@@ -311,6 +444,33 @@ example : demo.enabled = [] ∧ demo.quit = true ∧ accepts 0 demo = 1 ∧ runs
 example : demo.coordQuit = true := (quit_stops_coordinator_and_every_worker
   ⟨init 2 [1], _, Or.inl ⟨2, [1], rfl⟩, rfl⟩ (by decide) (by decide)).1
 
+/-- calls whose callback misbehaves: call 0 succeeds and its callback raises (the history of the seeded regression),
+    call 1 fails and its callback raises, call 2 fails without callback, call 3 succeeds without callback, call 4 is
+    well-behaved; two workers, everything drained. -/
+def cbFault : St :=
+  run (initPool 0 2 [])
+    ([.pStart, .pCall 0 false .raises, .pCall 1 true .raises, .pCall 2 true .absent, .pCall 3 false .absent,
+      .pCall 4 false .returns] ++ List.replicate 24 (.any 0))
+
+example : Reachable cbFault := ⟨initPool 0 2 [], _, Or.inr ⟨0, 2, [], rfl⟩, rfl⟩
+/-- call 0 is reported once as success and never as failure; its callback's exception is logged once; call 1 is
+    reported once as failure; calls 2 and 3 are never reported, the failure of 2 is `log.err`ed once. -/
+example : cbFault.enabled = [] ∧ cbFault.quit = false ∧ cbFault.crashed = none ∧
+    callsAccepted 0 true cbFault = 1 ∧ reports 0 true cbFault = 1 ∧
+    callsAccepted 0 false cbFault = 0 ∧ reports 0 false cbFault = 0 ∧ runsK (errKey 0) cbFault = 1 ∧
+    callsAccepted 1 false cbFault = 1 ∧ reports 1 false cbFault = 1 ∧ reports 1 true cbFault = 0 ∧
+    runsK (errKey 1) cbFault = 1 ∧
+    callsAccepted 2 false cbFault = 0 ∧ reports 2 false cbFault = 0 ∧ acceptsK (logerrKey 2) cbFault = 1 ∧
+    runsK (logerrKey 2) cbFault = 1 ∧ runs 3 cbFault = 1 ∧ reports 3 true cbFault = 0 ∧
+    reports 4 true cbFault = 1 ∧ runsK (errKey 4) cbFault = 0 ∧
+    (∃ (w : Nat) (wk : Worker), cbFault.workers[w]? = some wk ∧ wk.quit = false) := by
+  refine ⟨by decide, by decide, by decide, by decide, by decide, by decide, by decide, by decide, by decide, by decide,
+    by decide, by decide, by decide, by decide, by decide, by decide, by decide, by decide, by decide, by decide,
+    ⟨0, _, rfl, by decide⟩⟩
+/-- in the middle of that history: call 0 accepted, not yet called — its report is owed -/
+example : owed 0 true (run (initPool 0 2 []) [.pStart, .pCall 0 false .raises, .stepC]) = 1 ∧
+    reports 0 true (run (initPool 0 2 []) [.pStart, .pCall 0 false .raises, .stepC]) = 0 := by decide
+
 theorem noRawLimit_of_all (ops : List Op)
     (h : ops.all (fun o => match o with | .limit _ => false | _ => true) = true) :
     ∀ o ∈ ops, ∀ l, o ≠ Op.limit l := by
@@ -327,7 +487,7 @@ example : inflight 0 mid = 1 ∧ inflight 1 mid = 1 ∧ inflight 2 mid = 1 ∧ r
     mid.busy = 1 ∧ mid.limit = 1 ∧ mid.quit = false := by decide
 
 /-- a quiescent pre-quit state with a backlog: the limit is 0 (a `ThreadPool` that was never started) -/
-def starved : St := run (initPool 0 3 []) [.pCall 7 false, .stepC]
+def starved : St := run (initPool 0 3 []) [.pCall 7 false .returns, .stepC]
 example : ReachableViaPool starved :=
   ⟨initPool 0 3 [], _, Or.inr ⟨0, 3, [], by decide, by decide, rfl⟩, noRawLimit_of_all _ (by decide), rfl⟩
 example : starved.enabled = [] ∧ starved.quit = false ∧ starved.pending = [(7, 2)] ∧ starved.limit = 0 := by decide
@@ -339,12 +499,12 @@ example : served.enabled = [] ∧ served.quit = false ∧ 0 < served.limit ∧ r
 /-- After `quit()` the pre-quit clause really needs `quit = false`: a `start()` after `stop()` raises the limit but its
     `grow` is refused (`AlreadyQuit`), so a call queued before the pool ever started is never served. -/
 theorem start_after_stop_leaves_backlog :
-    let s := run (initPool 0 3 []) [.pCall 7 false, .stepC, .pStop, .pStart, .stepC]
+    let s := run (initPool 0 3 []) [.pCall 7 false .returns, .stepC, .pStop, .pStart, .stepC]
     s.enabled = [] ∧ s.quit = true ∧ s.pending = [(7, 2)] ∧ s.limit = 3 ∧ s.workers = [] ∧ s.coordQuit = true := by
   decide
 
 /-- The repaired `adjustPoolsize`: raising the maximum of a started `ThreadPool(0, 0)` now runs the backlog. -/
-example : Ev.run 0 0 ∈ (run (initPool 0 0 []) [.pStart, .pCall 0 false, .stepC, .pAdjust none (some 1),
+example : Ev.run 0 0 ∈ (run (initPool 0 0 []) [.pStart, .pCall 0 false .returns, .stepC, .pAdjust none (some 1),
     .any 0, .any 0, .any 0]).log := by decide
 
 /-- Why "exactly once" needs limit changes to go through `ThreadPool`: `Team` is never told that the limit
@@ -352,6 +512,6 @@ example : Ev.run 0 0 ∈ (run (initPool 0 0 []) [.pStart, .pCall 0 false, .stepC
     could now be created (unchanged Twisted: `ThreadPool(0,0)` + `adjustPoolsize(0,1)` did exactly this). -/
 theorem silent_limit_raise_starves :
     let s := run (init 0 []) [.doTask 0 false, .stepC, .limit 1]
-    s.enabled = [] ∧ s.pending = [(0, 0)] ∧ s.workers = [] ∧ s.limit = 1 ∧ s.log = [.accept 0] := by decide
+    s.enabled = [] ∧ s.pending = [(0, 0)] ∧ s.workers = [] ∧ s.limit = 1 ∧ s.log = [.accept (0, 0)] := by decide
 
 end TwistedProps.C49
